@@ -41,8 +41,8 @@ OverlapForms == SingleForms \o
 MultiKernels == Seqs(2, Len(MultiForms))
 OverlapKernels == Seqs(2, Len(OverlapForms))
 
-\* quick tier: every single line, and a single-micro-op line followed by a two-micro-op line
-QuickOverlapKernels == { k \in OverlapKernels : Len(k) = 1 \/ (k[1] <= 7 /\ k[2] > 7) }
+\* quick tier: every single line, and a single-micro-op line on {1}, {1,2} or {1,2,3} followed by a two-micro-op line
+QuickOverlapKernels == { k \in OverlapKernels : Len(k) = 1 \/ (k[1] \in {1, 4, 7} /\ k[2] > 7) }
 OneLineKernels == { k \in OverlapKernels : Len(k) = 1 }
 
 \* ---------------------------------------------------------------- R2 tables
